@@ -17,7 +17,10 @@ Section SimM.
   Definition sim {A} (m : M A) : Prop := forall r1 r2, rel r1 r2 -> out2 r1 (m r1) (m r2).
   (* the same for readers that are not streams: SliceRead's bulk scans are only ever run on those *)
   Definition simS {A} (m : M A) : Prop := forall r1 r2, rel r1 r2 -> rk r1 <> SrcIo -> out2 r1 (m r1) (m r2).
-  Hypothesis rel_rk : forall r1 r2, rel r1 r2 -> rk r1 = rk r2.
+  (* the two readers are both streams or both slices (a &str and the &[u8] of
+     the same bytes may be related: StrSliceProofs) *)
+  Hypothesis rel_io : forall r1 r2, rel r1 r2 -> (rk r1 = SrcIo <-> rk r2 = SrcIo).
+  Definition same_kind : Prop := forall r1 r2, rel r1 r2 -> rk r1 = rk r2.
   Hypothesis sim_peek : sim peek.
   Hypothesis sim_next : sim next_char.
   Hypothesis sim_eat : sim eat_char.
@@ -44,9 +47,9 @@ Section SimM.
   Lemma sim_ext {A} (m m' : M A) : (forall r, m r = m' r) -> sim m' -> sim m.
   Proof. intros E H r1 r2 Hr. unfold out2. rewrite !E. apply H. exact Hr. Qed.
 
-  Lemma sim_by_rk {A} (m : M A) (f : src_kind -> M A) :
+  Lemma sim_by_rk {A} (m : M A) (f : src_kind -> M A) : same_kind ->
     (forall r, m r = f (rk r) r) -> (forall k, sim (f k)) -> sim m.
-  Proof. intros E H r1 r2 Hr. unfold out2. rewrite !E. rewrite <- (rel_rk r1 r2 Hr). apply (H (rk r1)). exact Hr. Qed.
+  Proof. intros rel_rk E H r1 r2 Hr. unfold out2. rewrite !E. rewrite <- (rel_rk r1 r2 Hr). apply (H (rk r1)). exact Hr. Qed.
 
   Lemma simS_of_sim {A} (m : M A) : sim m -> simS m.
   Proof. intros H r1 r2 Hr _. apply H. exact Hr. Qed.
@@ -63,8 +66,10 @@ Section SimM.
   Lemma sim_by_kind {A} (m fio fsl : M A) :
     (forall r, m r = match rk r with SrcIo => fio r | _ => fsl r end) -> sim fio -> simS fsl -> sim m.
   Proof.
-    intros E Hio Hsl r1 r2 Hr. rewrite !E. rewrite <- (rel_rk r1 r2 Hr).
-    destruct (rk r1) eqn:Ek; [apply Hsl; [exact Hr|congruence]|apply Hsl; [exact Hr|congruence]|apply Hio; exact Hr].
+    intros E Hio Hsl r1 r2 Hr. rewrite !E. pose proof (rel_io r1 r2 Hr) as [Hk1 Hk2].
+    destruct (rk r1) eqn:E1; destruct (rk r2) eqn:E2;
+      try (discriminate (Hk1 eq_refl)); try (discriminate (Hk2 eq_refl));
+      first [apply Hio; exact Hr | apply Hsl; [exact Hr|congruence]].
   Qed.
 
   Ltac sim_step :=
@@ -88,13 +93,15 @@ Section SimM.
   Proof. unfold next_or_eof_char. sim_auto. Qed.
   Lemma sim_as_str (b : bytes) : sim (Scan.as_str b).
   Proof. unfold Scan.as_str. sim_auto. Qed.
-  Lemma sim_finish_str b : sim (finish_str b).
+  (* the one place where a &str and a byte slice are treated differently *)
+  Lemma sim_finish_str_same b : same_kind -> sim (finish_str b).
   Proof.
-    apply (sim_by_rk _ (fun k => match k with SrcStr => ret b | _ => Scan.as_str b end));
+    intros rel_rk.
+    apply (sim_by_rk _ (fun k => match k with SrcStr => ret b | _ => Scan.as_str b end) rel_rk);
       [intros r; unfold finish_str; destruct (rk r); reflexivity|].
     intros k; destruct k; first [apply sim_ret | apply sim_as_str].
   Qed.
-  Hint Resolve sim_peek_or_null sim_next_or_eof sim_next_or_eof_char sim_as_str sim_finish_str : sim.
+  Hint Resolve sim_peek_or_null sim_next_or_eof sim_next_or_eof_char sim_as_str : sim.
   Ltac sim_auto' := repeat first [solve [auto with sim] | sim_step].
   Ltac simS_step :=
     first
@@ -113,13 +120,16 @@ Section SimM.
   Proof. induction fuel as [|f IH]; intros scratch; cbn [scan_symbol_io]; sim_auto'. Qed.
   Lemma sim_scan_symbol_slice scratch : simS (scan_symbol_slice scratch).
   Proof. eapply simS_ext; [intros r; apply scan_symbol_slice_eq|]. cbv zeta. simS_auto. Qed.
-  Lemma sim_parse_symbol_rd fuel scratch : sim (parse_symbol_rd fuel scratch).
+  Lemma sim_parse_symbol_rd_same fuel scratch : same_kind -> sim (parse_symbol_rd fuel scratch).
   Proof.
+    intros rel_rk. pose proof (fun b => sim_finish_str_same b rel_rk) as Hfin.
     apply (sim_by_kind _ (b <- scan_symbol_io fuel scratch ;; Scan.as_str b) (b <- scan_symbol_slice scratch ;; finish_str b));
       [intros r; unfold parse_symbol_rd; destruct (rk r); reflexivity| |].
     - pose proof sim_scan_symbol_io. sim_auto'.
     - pose proof sim_scan_symbol_slice. simS_auto.
   Qed.
+  (* between readers of different kinds this needs the input to be a str: a hypothesis here *)
+  Hypothesis sim_parse_symbol_rd : forall fuel scratch, sim (parse_symbol_rd fuel scratch).
   Hint Resolve sim_parse_symbol_rd : sim.
 
   (* ---- strings ---- *)
@@ -135,13 +145,15 @@ Section SimM.
     induction fuel as [|f IH]; intros scratch; [cbn [r6rs_str_slice]; simS_auto|].
     eapply simS_ext; [intros r; apply r6rs_str_slice_eq|]. simS_auto.
   Qed.
-  Lemma sim_parse_r6rs_str_rd fuel : sim (parse_r6rs_str_rd fuel).
+  Lemma sim_parse_r6rs_str_rd_same fuel : same_kind -> sim (parse_r6rs_str_rd fuel).
   Proof.
+    intros rel_rk. pose proof (fun b => sim_finish_str_same b rel_rk) as Hfin.
     apply (sim_by_kind _ (b <- r6rs_str_io fuel [] ;; Scan.as_str b) (b <- r6rs_str_slice fuel [] ;; finish_str b));
       [intros r; unfold parse_r6rs_str_rd; destruct (rk r); reflexivity| |].
     - pose proof sim_r6rs_str_io. sim_auto'.
     - pose proof sim_r6rs_str_slice. simS_auto.
   Qed.
+  Hypothesis sim_parse_r6rs_str_rd : forall fuel, sim (parse_r6rs_str_rd fuel).
   Hint Resolve sim_parse_r6rs_str_rd : sim.
 
   Lemma sim_elisp_hex_loop fuel : forall n, sim (elisp_hex_loop fuel n).
